@@ -43,6 +43,8 @@ def gen(ctx):
 
                 t["subs"] = [[sub() for _ in range(rng.randint(1, 2))] for _ in range(rng.randint(1, 2))]
                 sc["svc"][t["name"]] = max(sum(sc["svc"][n] for n in st) for st in t["subs"])  # only used for the time budget
+        if rng.random() < 0.3:
+            sc["full_race"] = True  # race control = the real BenchmarkActor + BenchmarkCoordinator with its own metrics store
         yield {"scenario": sc, "seed": rng.randrange(1 << 30)}
 
 
@@ -124,9 +126,32 @@ def throughput_end_to_end(ctx, sim, evs, tidx):
     ctx.count("throughput-calls", len(calls))
 
 
+def run_sim(case):
+    """a share of the races run with the real BenchmarkActor / BenchmarkCoordinator as race control (scenario['full_race'])"""
+    sc = case["scenario"]
+    if not sc.get("full_race"):
+        return c01.run_sim(case)
+    import shutil
+    import tempfile
+
+    from harness import sim_race
+
+    tmp = tempfile.mkdtemp(prefix="c07-")
+    try:
+        sim = sim_race.Sim(dict(sc, root_dir=tmp), seed=case["seed"])
+        sim.start()
+        done = lambda s: bool(s.ss.inbox) and not s.channels and not s.executors
+        res = sim.run(max_events=80000, max_vtime=c01.budget(sc) + 30, until=done)
+        if res == "until" and [type(m).__name__ for m in sim.ss.inbox][:1] != ["Success"]:
+            res = "not-success"
+        return sim, res
+    finally:
+        shutil.rmtree(tmp, ignore_errors=True)
+
+
 def run(ctx, case):
     sc = case["scenario"]
-    sim, res = c01.run_sim(case)
+    sim, res = run_sim(case)
     tidx, elem_of, spec = c01.task_index(sc)
     evs = pipeline_events(sim)
     cap = sc.get("queue_size", 1 << 20)
@@ -139,7 +164,7 @@ def run(ctx, case):
         ctx.diff("pipeline replay", m["diff"].get("model"), {k: m["diff"].get(k) for k in ("at", "why", "event", "impl")})
     # ---------------- direct oracle: records in race control's store vs. the request log of the simulated cluster ----------------
     if res == "until":
-        docs = sim.rc_store.docs
+        docs = sim.rc_docs
         subs_of = {t["name"]: [n for st in t["subs"] for n in st] for t in spec.values() if t.get("subs")}
         per, dep = {}, {}
         for d in docs:
@@ -208,6 +233,9 @@ def run(ctx, case):
         if "r" in m and m["r"]["in_flight"] != 0:
             ctx.diff("model still has samples in flight at the end of the race", 0, m["r"]["in_flight"])
     ctx.count("result:" + res)
+    if sc.get("full_race"):
+        ctx.count("races-with-the-real-coordinator")
+        ctx.count("documents-received-by-the-real-coordinator", len(sim.rc_docs))
     ctx.sig([sorted(tags), cls], nontrivial=len(evs) > 5)
 
 
